@@ -890,6 +890,29 @@ func (c *Ctx) guardedNarrowingRule(r *Report, rule string) {
 						bits = n
 					}
 				}
+				// byte(v) next to byte(v >> 8) [, byte(v >> 16), ...] spells v octet by octet: the width that
+				// counts is that of the whole decomposition; a shifted octet itself is no narrowing of v
+				if bits == 8 {
+					if sh, isSh := cv.X.(*ssa.BinOp); isSh && sh.Op == token.SHR {
+						continue
+					}
+					if refs := cv.X.Referrers(); refs != nil {
+						maxShift := int64(0)
+						for _, ref := range *refs {
+							if sh, ok := ref.(*ssa.BinOp); ok && sh.Op == token.SHR && sh.X == cv.X {
+								if k, ok := sh.Y.(*ssa.Const); ok {
+									if kv, _ := constInt64(k.Value); kv%8 == 0 && kv > maxShift {
+										maxShift = kv
+									}
+								}
+							}
+						}
+						if maxShift > 0 {
+							bits = int(maxShift) + 8
+							thi = int64(1)<<uint(bits) - 1
+						}
+					}
+				}
 				guarded := false
 				for _, g := range guards {
 					if g.bits == bits && g.pass.Dominates(b) {
